@@ -233,6 +233,10 @@ def monitor(s, sc, infos):
             for d in cur_delivery.get(lab, []):
                 d["removed"] |= set(m)
             m.clear()
+        elif k == "SetContains":
+            if e.get("result") and e["item"] not in m:
+                what = "the subunit was closed" if lab.startswith("update:") and not m else "it was unregistered"
+                return f"{lab}: callback {e['item']} is still treated as registered (and invoked) after {what}"
         elif k == "SetSnapshot":
             d = {"snap": set(m), "removed": set(), "called": [], "idx": i}
             cur_delivery[lab] = [d]
